@@ -1,38 +1,32 @@
 ------------------------- MODULE ProxyMsgLimit_Gen -------------------------
 (* Vector generator for C07: one state per scenario of ProxyMsgLimit (direction, the two limit      *)
-(* settings, how the body is announced, its size relative to the effective limit).  `out` carries   *)
-(* the scenario, the effective limit interval the CONTRACT derives from the settings (the harness    *)
-(* scales it to bytes; it never computes a limit itself) and the observation the                     *)
-(* implementation-shaped layer predicts.  Exported with `tlc -dump`.                                 *)
+(* settings, how the body is announced, its size relative to the effective limit, route cache on/off *)
+(* for requests, response compression on/off for responses).  `out` carries the scenario, the         *)
+(* effective limit interval the CONTRACT derives from the settings (the harness scales it to bytes;  *)
+(* it never computes a limit itself), the number of identical requests of the sequence and the       *)
+(* observation the implementation-shaped layer predicts for each of them.  Exported with `tlc -dump`. *)
 EXTENDS ProxyMsgDefs, Json, TLC
 
 VARIABLES out, kind
 
-D == [lo |-> 8, hi |-> 9]
-Inner == {0, 3, -1}
-Outer == {0, 5, -1}
-Sizes(i, o) == IF EffHi(i, o, D) < 0 THEN {0, 1, D.hi + 1}
-               ELSE {0, EffLo(i, o, D) - 1, EffLo(i, o, D), EffHi(i, o, D) + 1, 4 * EffHi(i, o, D)}
-Wires(dir, i, o) ==
-    {[enc |-> "cl", declared |-> n, actual |-> n] : n \in Sizes(i, o)}
-    \cup {[enc |-> "cl", declared |-> n, actual |-> n - 1] : n \in {x \in Sizes(i, o) : x > 0}}
-    \cup {[enc |-> e, declared |-> -1, actual |-> m] : e \in (IF dir = "req" THEN {"chunked"} ELSE {"chunked", "close"}),
-                                                       m \in Sizes(i, o)}
+D == LimD
 
 Rel(i, o, n) == IF n = 0 THEN "zero"
                 ELSE IF EffHi(i, o, D) < 0 THEN (IF n = 1 THEN "small" ELSE "beyond-default")
                 ELSE IF n = EffLo(i, o, D) - 1 THEN "lo-1" ELSE IF n = EffLo(i, o, D) THEN "lo"
-                ELSE IF n = EffHi(i, o, D) + 1 THEN "hi+1" ELSE "x4"
+                ELSE IF n = EffHi(i, o, D) + 1 THEN "hi+1" ELSE IF n = EffLo(i, o, D) \div 2 THEN "half" ELSE "x4"
 
-Vec(dir, i, o, w) ==
+Vec(dir, i, o, w, cache) ==
     [dir |-> dir, inner |-> i, outer |-> o, enc |-> w.enc, short |-> Short(w), rel |-> Rel(i, o, Announced(w)),
+     comp |-> w.comp, cache |-> cache, reqs |-> IF cache THEN LimK ELSE 1,
      stream |-> Streams(i, o), effLo |-> EffLo(i, o, D), effHi |-> EffHi(i, o, D),
      level |-> IF i # 0 THEN "inner" ELSE IF o # 0 THEN "outer" ELSE "default",
      exp |-> IF dir = "req" THEN L_ReqModel(i, o, D.hi, w) @@ [complete |-> TRUE, got |-> 0]
              ELSE L_RespModel(i, o, D.hi, w) @@ [forwarded |-> TRUE]]
 
-Init == \E dir \in {"req", "resp"}, i \in Inner, o \in Outer : \E w \in Wires(dir, i, o) :
-            kind = dir /\ out = ToJson(Vec(dir, i, o, w))
+Init == \E dir \in {"req", "resp"}, i \in LimInner, o \in LimOuter : \E w \in LimWires(dir, i, o) :
+            \E cache \in (IF dir = "req" THEN BOOLEAN ELSE {FALSE}) :
+                kind = dir /\ out = ToJson(Vec(dir, i, o, w, cache))
 Next == UNCHANGED <<out, kind>>
 Spec == Init /\ [][Next]_<<out, kind>>
 =============================================================================
